@@ -251,7 +251,16 @@ func (ex *Exec) quoteIf(verb byte, s Str) Str {
 func (ex *Exec) sprintf(fr *frame, format Str, args []Value) Str {
 	f, ok := format.concrete()
 	if !ok {
-		ex.unsupported("fmt with symbolic format string")
+		// a symbolic format without any verb is its own rendering (when there
+		// are no operands); one that contains '%' is not modelled
+		var anyPct []*Term
+		for _, b := range format.b {
+			anyPct = append(anyPct, mkEq(b, mkByte('%')))
+		}
+		if len(args) == 0 && !ex.decide(mkOr(anyPct...)) {
+			return format
+		}
+		ex.unsupported("fmt with a symbolic format string that contains a verb")
 	}
 	var out []*Term
 	argi := 0
